@@ -219,6 +219,45 @@ def run(run):
                         run.violation("C07:files-lost", "%d files scanned but entities of %d files (%d classes) reported" % (nf, len(seen), classes), dict(nfiles=nf, procs=procs))
             finally:
                 shutil.rmtree(root, ignore_errors=True)
+        # ---- large sources (hundreds of kilobytes each, more of them than workers, sizes decreasing in the order of the
+        #      walk, the declarations at the end of each file): the merged graph is the union of the per-file graphs,
+        #      whichever worker read which file after which
+        root = C.scratch("c07large")
+        try:
+            nlarge = 8 if quick else 14
+            union_nodes, union_edges = {}, collections.Counter()
+            for i in range(nlarge):
+                size = 540000 - i * 26000
+                body = "".join("    int m_%02d_%d(int a) { return helper%d(a) + %d; }\n" % (i, j, i, j) for j in range(12))
+                pad = ("/* " + ("padding line %02d 0123456789 abcdefghijklmnopqrstuvwxyz\n" % i) * (size // 52) + "*/\n")
+                p = os.path.join(root, "src", "Big%02d.java" % i)
+                os.makedirs(os.path.dirname(p), exist_ok=True)
+                open(p, "w").write(pad + "class Big%02d {\n%s}\n" % (i, body))
+                one = S.real_build(h, open(p, "rb").read(), p, timeout=300)
+                ns, es = canon(one["nodes"], one["edges"])
+                union_nodes.update(ns)
+                union_edges.update(es)
+            for procs in ([0, 2] if quick else [1, 2, 4, 16]):
+                r = h.call(op="scan-order", dir=root, graph="g", order=[], procs=procs, timeout=300)
+                run.count(("large-sources", nlarge, procs))
+                stats["large_source_scans"] += 1
+                if r.get("outcome") != "ok":
+                    run.violation("C07:scan-" + str(r.get("outcome")), "scan of %d sources of 330-540 KB ends with %s" % (nlarge, r.get("outcome")), dict(nfiles=nlarge, procs=procs))
+                    if r.get("outcome") in ("died", "hang"):
+                        h = C.Harness()
+                    continue
+                got = canon(r["nodes"], r["edges"])
+                if got != (union_nodes, union_edges):
+                    extra = [json.loads(v) for i_, v in got[0].items() if i_ not in union_nodes][:2]
+                    miss = [json.loads(v) for i_, v in union_nodes.items() if i_ not in got[0]][:2]
+                    for e_ in extra + miss:
+                        e_["snippet"] = str(e_.get("snippet"))[:120]
+                    run.violation("C07:merge-differs-from-union", "a project of %d sources of 330-540 KB: the merged graph has %d entities, the per-file graphs %d together (GOMAXPROCS=%s); %d are in no per-file graph" %
+                                  (nlarge, len(got[0]), len(union_nodes), procs or "default", len([1 for i_ in got[0] if i_ not in union_nodes])),
+                                  dict(generator="checks/c07.py large sources", nfiles=nlarge, procs=procs, extra=extra, missing=miss))
+                    break
+        finally:
+            shutil.rmtree(root, ignore_errors=True)
         # ---- good files interleaved with entries that cannot be read (dangling links): which worker meets which
         #      faulty entry depends on the schedule; the good files' results must not
         for nf in ([8] if quick else [3, 8, 20, 45]):
